@@ -347,9 +347,14 @@ class Sym(Exec):
         for a in e2:
             st.pc.append(z3.Implies(z3.Not(c), a))
         if s1.trace != st.trace or s2.trace != st.trace:
-            if [str(x) for x in s1.trace] != [str(x) for x in s2.trace]:
+            if [str(x) for x in s1.trace] == [str(x) for x in s2.trace]:
+                st.trace = s1.trace
+            elif getattr(self, "guarded_traces", False):
+                # both branches extend the common trace: record the extensions under the branch condition
+                nb = len(st.trace)
+                st.trace = st.trace + [("guard", c, tuple(s1.trace[nb:]), tuple(s2.trace[nb:]))]
+            else:
                 raise CannotMerge()
-            st.trace = s1.trace
         for k in set(s1.ghost) | set(s2.ghost):
             if k in s1.ghost and k in s2.ghost and (s1.ghost[k] is s2.ghost[k] or s1.ghost[k] == s2.ghost[k]):
                 st.ghost[k] = s1.ghost[k]
